@@ -28,6 +28,7 @@ import sys
 import json
 
 sys.path.insert(0, os.path.dirname(os.path.abspath(__file__)))
+import r11
 from rustscan import Source, ScanError, blank_noncode, match_close, match_open, skip_ws, norm, OPEN, CLOSE
 
 REPO = os.environ.get('VERIF_REPO', '/repo')
@@ -514,6 +515,8 @@ class FnWeave:
         self.r5slice = False
         self.r8b = False
         self.iters = {}
+        self.r11 = None     # None | {'vec': type or None}
+        self.r12 = None     # concrete return type replacing an `impl Trait` return type
 
 
 def weave_fn(text, w, rules, vacuity=False, name='?'):
@@ -792,6 +795,12 @@ def build_unit(unit_path, vacuity=False, degrade=None):
                 s2 = lines[i].strip()
                 if s2.startswith('//@'):
                     d2 = s2[3:].strip()
+                    if d2.startswith('include-unit '):
+                        # splice shared contract text (e.g. a contract that one unit proves and another one assumes)
+                        sub = open(os.path.join(HERE, d2[len('include-unit '):].strip())).read().rstrip('\n').split('\n')
+                        lines[i:i + 1] = sub
+                        n = len(lines)
+                        continue
                     flush()
                     if d2 == 'end':
                         break
@@ -809,6 +818,13 @@ def build_unit(unit_path, vacuity=False, degrade=None):
                         # R8b: `X::TYPE` -> the free const `X_TYPE` that rule R8 hoisted out of `impl AttributeStaticType for X`
                         # (same value by construction; Verus does not support associated constants in patterns)
                         w.r8b = True
+                    elif d2 == 'r11' or d2.startswith('r11 '):
+                        # R11: iterator adaptor chains -> their defining loops (vx/r11.py)
+                        mm = re.match(r'r11\s+vec=(.+)$', d2)
+                        w.r11 = {'vec': mm.group(1).strip() if mm else None}
+                    elif d2.startswith('r12 '):
+                        # R12: `-> impl Trait<..>` return type -> the concrete type the body returns (type annotation only)
+                        w.r12 = d2[4:].strip()
                     elif d2 == 'body-opaque':
                         # the function is trusted (external_body): its body is not needed and may call helpers that are not extracted
                         w.opaque = True
@@ -841,6 +857,13 @@ def build_unit(unit_path, vacuity=False, degrade=None):
             finally:
                 R5_SLICE[0] = False
             fname = ' :: '.join(path)
+            if w.r12:
+                code12 = blank_noncode(txt)
+                m12 = re.search(r'->\s*impl\b[^{]*?(?=\s*(?:where\b|\{))', code12)
+                if not m12:
+                    raise ExtractError('lost anchor: r12: fn %s has no `-> impl ..` return type' % fname)
+                rules.hit('R12', 'fn %s: %s => -> %s' % (fname, norm(txt[m12.start():m12.end()])[:60], w.r12))
+                txt = txt[:m12.start()] + '-> ' + w.r12 + txt[m12.end():]
             if w.r8b:
                 def _r8b(mm):
                     if mm.group(1) == 'Self':
@@ -855,6 +878,13 @@ def build_unit(unit_path, vacuity=False, degrade=None):
                 if 'external_body' not in w.attr:
                     w.attr = (w.attr.rstrip('\n') + '\n' if w.attr.strip() else '') + '#[verifier::external_body]\n'
                 degraded.append({'function': f + ' :: ' + fname, 'reason': why})
+            if w.r11 is not None and not w.opaque:
+                try:
+                    txt, notes11 = r11.desugar(txt, w.r11.get('vec'))
+                    for nt in notes11:
+                        rules.hit('R11', 'fn %s: %s' % (fname, nt))
+                except (r11.R11Error, ScanError) as e:
+                    _degrade('lost anchor: r11: %s' % e)
             if fname in degrade and not w.opaque:
                 _degrade(degrade[fname])
             try:
